@@ -253,6 +253,8 @@ inductive Leaf
   | arr (items : PS) (minItems maxItems : Option Nat) (enum : List (List EV))
   | obj (props : List (Str × PS)) (required : List Str) (addl : Option PS)
   | deep (props : List (Str × DS)) (required : List Str)
+  /-- a schema without `type` and without composition (`{}`, `{enum: […]}`, `{description: …}`) -/
+  | untyped (enum : List EV)
   deriving DecidableEq, Repr
 
 inductive Sch
@@ -393,10 +395,10 @@ def buildAddl (prim : PT → Str → PR) (props : List (Str × Str)) (a : PS) : 
       | .nil => buildAddl prim props a rest
       | .val v => (buildAddl prim props a rest).map ((k, v) :: ·)
 
-/-- makeObject for a flat object schema: declared properties first, then the additionalProperties loop over
-every request key. `shadow` = the code's behaviour: that loop also re-decodes *declared* properties with the
-additionalProperties schema (the specification side passes `false`: undeclared keys only). -/
-def makeObject (prim : PT → Str → PR) (shadow : Bool) (props : List (Str × Str)) (sprops : List (Str × PS)) (addl : Option PS) :
+/-- makeObject for a flat object schema: declared properties first, then buildResObj's additionalProperties loop
+over the request keys that are NOT declared (`if _, declared := schema.Value.Properties[k]; declared { continue }`,
+commit 997bea5). The two key sets are disjoint, so the Go map `resultMap` is the concatenation. -/
+def makeObject (prim : PT → Str → PR) (props : List (Str × Str)) (sprops : List (Str × PS)) (addl : Option PS) :
     Option (List (Str × PV)) :=
   match buildProps prim props sprops with
   | none => none
@@ -404,16 +406,16 @@ def makeObject (prim : PT → Str → PR) (shadow : Bool) (props : List (Str × 
     match addl with
     | none => some base
     | some a =>
-      match buildAddl prim props a ((dedup (props.map Prod.fst)).filter (fun k => shadow || !hasKey k sprops)) with
+      match buildAddl prim props a ((dedup (props.map Prod.fst)).filter (fun k => !hasKey k sprops)) with
       | none => none
-      | some extra => some (base.filter (fun kv => !hasKey kv.1 extra) ++ extra)
+      | some extra => some (base ++ extra)
 
 /-- object result of the path/header/cookie decoders (`val, ok, err` with a typed-nil map on error) -/
-def objOut (prim : PT → Str → PR) (shadow : Bool) (found : Bool) (src pd vd : Str) (sprops : List (Str × PS)) (addl : Option PS) : Out :=
+def objOut (prim : PT → Str → PR) (found : Bool) (src pd vd : Str) (sprops : List (Str × PS)) (addl : Option PS) : Out :=
   match propsFromString src pd vd with
   | none => ⟨.nilObj, found, some .parse⟩
   | some props =>
-    match makeObject prim shadow props sprops addl with
+    match makeObject prim props sprops addl with
     | none => ⟨.nilObj, found, some .parse⟩
     | some kvs => ⟨.obj kvs, found, none⟩
 
@@ -482,7 +484,7 @@ def pathArr (prim : PT → Str → PR) (name : Str) (st : Sty) (ex : Bool) (r : 
       | none => ⟨.nil, true, some .parse⟩
       | some src => arrOut true (parseArr prim t (splitOn delim src))
 
-def pathObj (prim : PT → Str → PR) (shadow : Bool) (name : Str) (st : Sty) (ex : Bool) (r : Req)
+def pathObj (prim : PT → Str → PR) (name : Str) (st : Sty) (ex : Bool) (r : Req)
     (sprops : List (Str × PS)) (addl : Option PS) : Out :=
   match pathObjFmt name st ex with
   | none => badMethodObj
@@ -492,7 +494,7 @@ def pathObj (prim : PT → Str → PR) (shadow : Bool) (name : Str) (st : Sty) (
     | some raw =>
       match cutPrefix raw pre with
       | none => ⟨.nilObj, true, some .parse⟩
-      | some src => objOut prim shadow true src pd vd sprops addl
+      | some src => objOut prim true src pd vd sprops addl
 
 /-! ## urlValuesDecoder -/
 
@@ -533,7 +535,14 @@ resolves in the result -/
 def queryObjFound {β γ : Type} (sprops : List (Str × β)) (props : List (Str × Str)) (val : List (Str × γ)) : Bool :=
   !sprops.isEmpty && props.any (fun kv => hasKey kv.1 sprops || hasKey kv.1 val)
 
-def queryObj (prim : PT → Str → PR) (shadow : Bool) (absentAware : Bool) (name : Str) (st : Sty) (ex : Bool) (r : Req)
+/-- `found` on the specification side (`presenceAware`): the code computes `found` inside its loop over the *declared*
+properties, so an object schema that declares none (a free-form map: `additionalProperties: {…}` only) is never
+found, whatever the request carries (finding F-C05-6); the specification counts such a parameter as present as soon
+as a property was decoded for it. -/
+def objFound (presenceAware : Bool) {β γ : Type} (sprops : List (Str × β)) (val : List (Str × γ)) (codeFound : Bool) : Bool :=
+  if presenceAware && sprops.isEmpty then !val.isEmpty else codeFound
+
+def queryObj (prim : PT → Str → PR) (absentAware presenceAware : Bool) (name : Str) (st : Sty) (ex : Bool) (r : Req)
     (sprops : List (Str × PS)) (addl : Option PS) : Out :=
   if st ≠ .form then badMethodObj else
   -- specification side only (`absentAware`): an exploded object none of whose declared properties occurs in the
@@ -551,9 +560,9 @@ def queryObj (prim : PT → Str → PR) (shadow : Bool) (absentAware : Bool) (na
   | none => ⟨.nilObj, false, some .parse⟩
   | some none => absentObj
   | some (some props) =>
-    match makeObject prim shadow props sprops addl with
+    match makeObject prim props sprops addl with
     | none => ⟨.nilObj, false, some .parse⟩
-    | some kvs => ⟨.obj kvs, queryObjFound sprops props kvs, none⟩
+    | some kvs => ⟨.obj kvs, objFound presenceAware sprops kvs (queryObjFound sprops props kvs), none⟩
 
 /-! ### deepObject, one level: `name[prop]=v` and `name[prop][i]=v` -/
 
@@ -579,6 +588,20 @@ def deepKey (name : Str) (k : Str) : Option (List Str) :=
     | [] => none
     | segs => some segs
   else none
+
+/-- the text of the bracket groups `[s1][s2]…` -/
+def brackets : List Str → Str
+  | [] => []
+  | s :: rest => '[' :: s ++ ']' :: brackets rest
+
+/-- a query key that the deepObject branch takes for `name` (prefix `name[`, at least one group) is *well formed* when it
+is exactly `name[s1]…[sn]`. The code only collects the groups, so `p[a]zz`, `p[a][`, `p[a]x[b]` are read as `p[a]`,
+`p[a]`, `p[a][b]` — and collide with the real key in a Go map whose iteration order decides (finding F-C05-7). Keys that
+do not belong to the parameter at all count as well formed (nothing to object to). -/
+def wellFormedKey (name k : Str) : Bool :=
+  match deepKey name k with
+  | some segs => k == name ++ brackets segs
+  | none => true
 
 /-- props of the deepObject branch: (segments, values) per matching key -/
 def deepProps (name : Str) : List (Str × List Str) → List (List Str × List Str)
@@ -737,12 +760,52 @@ def dvPrims : List (Str × DV) → List (Str × PV)
   | (_, .a _) :: rest => dvPrims rest
   | (_, .o _) :: rest => dvPrims rest
 
-/-- a flat object schema under style deepObject (additionalProperties schema: not modelled, not generated) -/
+/-- a flat object schema under style deepObject, no additionalProperties schema -/
 def queryDeepFlat (prim : PT → Str → PR) (name : Str) (r : Req) (sprops : List (Str × PS)) : Out :=
   let o := queryDeep prim name r (sprops.map (fun kv => (kv.1, DS.prim kv.2)))
   match o.val with
   | .dobj kvs => ⟨.obj (dvPrims kvs), o.found, o.err⟩
   | _ => o
+
+/-- first bracket segment of every key: the keys of makeObject's top-level map `mobj` -/
+def topKeys : List (List Str × List Str) → List Str
+  | [] => []
+  | ([], _) :: rest => topKeys rest
+  | (k :: _, _) :: rest => k :: topKeys rest
+
+/-- buildResObj's additionalProperties loop under deepObject (primitive additionalProperties schema): an undeclared
+top-level key must carry a single text; a key that goes deeper (`name[k][x]`) is "not convertible to primitive",
+the key "" addresses the parameter map itself -/
+def deepAddl (prim : PT → Str → PR) (props : List (List Str × List Str)) (a : PS) : List Str → Option (List (Str × PV))
+  | [] => some []
+  | k :: rest =>
+    if k = [] then none
+    else if !(deepUnder k props).isEmpty then none
+    else match deepScalar k props with
+      | some [s] => match prim a.t s with
+        | .err => none
+        | .nil => deepAddl prim props a rest
+        | .val v => (deepAddl prim props a rest).map ((k, v) :: ·)
+      | some _ => none
+      | none => deepAddl prim props a rest
+
+def liftP (res : List (Str × PV)) : List (Str × DV) := res.map (fun kv => (kv.1, DV.p kv.2))
+
+/-- a flat object schema with an additionalProperties schema under style deepObject -/
+def queryDeepFlatA (prim : PT → Str → PR) (presenceAware : Bool) (name : Str) (r : Req) (sprops : List (Str × PS)) (a : PS) : Out :=
+  match deepProps name r.query with
+  | [] => absentObj
+  | props =>
+    if deepClash props then ⟨.nilObj, false, some .parse⟩ else
+    match buildDeep prim props (sprops.map (fun kv => (kv.1, DS.prim kv.2))) with
+    | none => ⟨.nilObj, false, some .parse⟩
+    | some kvs =>
+      match deepAddl prim props a ((dedup (topKeys props)).filter (fun k => !hasKey k sprops)) with
+      | none => ⟨.nilObj, false, some .parse⟩
+      | some extra =>
+        ⟨.obj (dvPrims kvs ++ extra),
+         objFound presenceAware sprops (dvPrims kvs ++ extra)
+           (deepFound (sprops.map (fun kv => (kv.1, DS.prim kv.2))) props (kvs ++ liftP extra)), none⟩
 
 /-! ## headerParamDecoder, cookieParamDecoder -/
 
@@ -765,11 +828,11 @@ def headerArr (prim : PT → Str → PR) (st : Sty) (r : Req) (t : PT) : Out :=
   | none => ⟨.nil, headerFound r, none⟩
   | some raw => arrOut true (parseArr prim t (splitOn [','] raw))
 
-def headerObj (prim : PT → Str → PR) (shadow : Bool) (st : Sty) (ex : Bool) (r : Req) (sprops : List (Str × PS)) (addl : Option PS) : Out :=
+def headerObj (prim : PT → Str → PR) (st : Sty) (ex : Bool) (r : Req) (sprops : List (Str × PS)) (addl : Option PS) : Out :=
   if st ≠ .simple then badMethodObj else
   match headerRaw r with
   | none => ⟨.nilObj, headerFound r, none⟩
-  | some raw => objOut prim shadow true raw [','] (if ex then ['='] else [',']) sprops addl
+  | some raw => objOut prim true raw [','] (if ex then ['='] else [',']) sprops addl
 
 def cookiePrim (prim : PT → Str → PR) (st : Sty) (r : Req) (t : PT) : Out :=
   if st ≠ .form then badMethod else
@@ -784,12 +847,16 @@ def cookieArr (prim : PT → Str → PR) (explodeBad : Bool) (st : Sty) (ex : Bo
   | none => absent
   | some raw => arrOut true (parseArr prim t (splitOn [','] raw))
 
-def cookieObj (prim : PT → Str → PR) (shadow : Bool) (explodeBad : Bool) (st : Sty) (ex : Bool) (r : Req)
+def cookieObj (prim : PT → Str → PR) (explodeBad : Bool) (st : Sty) (ex : Bool) (r : Req)
     (sprops : List (Str × PS)) (addl : Option PS) : Out :=
   if st ≠ .form || (explodeBad && ex) then badMethodObj else
   match r.cookie with
   | none => absentObj
-  | some raw => objOut prim shadow true raw [','] [','] sprops addl
+  | some raw => objOut prim true raw [','] [','] sprops addl
+
+/-- the specification's view of a deepObject request: keys with text outside the bracket groups are not keys of this
+parameter (they are other parameters' names) -/
+def strictReq (name : Str) (r : Req) : Req := { r with query := r.query.filter (fun kv => wellFormedKey name kv.1) }
 
 /-! ## decodeStyledParameter / decodeValue -/
 
@@ -797,13 +864,37 @@ def cookieObj (prim : PT → Str → PR) (shadow : Bool) (explodeBad : Bool) (st
 structure Flavour where
   prim : PT → Str → PR
   cookieExplodeBad : Bool
-  addlShadow : Bool
   absentAware : Bool
+  presenceAware : Bool
+  strictDeepKeys : Bool
+  untypedAsString : Bool
 
-def impl : Flavour := ⟨parsePrim, true, true, false⟩
-def spec : Flavour := ⟨specPrim, false, false, true⟩
+def impl : Flavour := ⟨parsePrim, true, false, false, false, false⟩
+def spec : Flavour := ⟨specPrim, false, true, true, true, true⟩
+
+def Flavour.deepReq (fl : Flavour) (name : Str) (r : Req) : Req := if fl.strictDeepKeys then strictReq name r else r
+
+/-- is the parameter present at all (decodeValue's last switch: `_, found = pathParams[param]`, `values[param]`,
+`header[CanonicalHeaderKey(param)]`, `req.Cookie(param)`) -/
+def present (c : Cell) (name : Str) (r : Req) : Bool :=
+  match c.loc with
+  | .path => r.path.isSome
+  | .query => (qLookup name r.query).isSome
+  | .header => headerFound r
+  | .cookie => r.cookie.isSome
 
 def decodeLeaf (fl : Flavour) (c : Cell) (name : Str) (r : Req) : Leaf → Out
+  -- a schema without type: decodeValue falls through to its last switch and returns (nil, found, nil) — the text is never
+  -- read, ValidateParameter then takes the present parameter for an empty one (finding F-C05-8). The specification reads
+  -- the text as a string (`untypedAsString`).
+  | .untyped _ =>
+    if fl.untypedAsString then
+      (match c.loc with
+       | .path => pathPrim fl.prim name c.style r .string
+       | .query => queryPrim fl.prim name c.style r .string
+       | .header => headerPrim fl.prim c.style r .string
+       | .cookie => cookiePrim fl.prim c.style r .string)
+    else ⟨.nil, present c name r, none⟩
   | .prim ps => match c.loc with
     | .path => pathPrim fl.prim name c.style r ps.t
     | .query => queryPrim fl.prim name c.style r ps.t
@@ -815,18 +906,21 @@ def decodeLeaf (fl : Flavour) (c : Cell) (name : Str) (r : Req) : Leaf → Out
     | .header => headerArr fl.prim c.style r items.t
     | .cookie => cookieArr fl.prim fl.cookieExplodeBad c.style c.explode r items.t
   | .obj sprops _ addl => match c.loc with
-    | .path => pathObj fl.prim fl.addlShadow name c.style c.explode r sprops addl
-    | .query => if c.style = .deepObject then queryDeepFlat fl.prim name r sprops
-                else queryObj fl.prim fl.addlShadow fl.absentAware name c.style c.explode r sprops addl
-    | .header => headerObj fl.prim fl.addlShadow c.style c.explode r sprops addl
-    | .cookie => cookieObj fl.prim fl.addlShadow fl.cookieExplodeBad c.style c.explode r sprops addl
+    | .path => pathObj fl.prim name c.style c.explode r sprops addl
+    | .query => if c.style = .deepObject then
+                  (match addl with
+                   | none => queryDeepFlat fl.prim name (fl.deepReq name r) sprops
+                   | some a => queryDeepFlatA fl.prim fl.presenceAware name (fl.deepReq name r) sprops a)
+                else queryObj fl.prim fl.absentAware fl.presenceAware name c.style c.explode r sprops addl
+    | .header => headerObj fl.prim c.style c.explode r sprops addl
+    | .cookie => cookieObj fl.prim fl.cookieExplodeBad c.style c.explode r sprops addl
   | .deep sprops _ => match c.loc, c.style with
-    | .query, .deepObject => queryDeep fl.prim name r sprops
-    | .query, .form => queryObj fl.prim fl.addlShadow fl.absentAware name c.style c.explode r [] none   -- never generated
+    | .query, .deepObject => queryDeep fl.prim name (fl.deepReq name r) sprops
+    | .query, .form => queryObj fl.prim fl.absentAware fl.presenceAware name c.style c.explode r [] none   -- never generated
     | .query, _ => badMethodObj
-    | .path, _ => pathObj fl.prim fl.addlShadow name c.style c.explode r [] none
-    | .header, _ => headerObj fl.prim fl.addlShadow c.style c.explode r [] none
-    | .cookie, _ => cookieObj fl.prim fl.addlShadow fl.cookieExplodeBad c.style c.explode r [] none
+    | .path, _ => pathObj fl.prim name c.style c.explode r [] none
+    | .header, _ => headerObj fl.prim c.style c.explode r [] none
+    | .cookie, _ => cookieObj fl.prim fl.cookieExplodeBad c.style c.explode r [] none
 
 /-- decodeStyledParameter's early exits: empty PathParams / empty query -/
 def earlyAbsent (c : Cell) (r : Req) : Bool :=
@@ -989,8 +1083,16 @@ def visitLeaf (hit arrEq : EV → PV → Bool) : Leaf → Val → Bool
     kvs.all (fun kv => match sprops.lookup kv.1 with
       | some ds => visitDS hit ds kv.2
       | none => true)
+  -- a typed-nil map (`map[string]any(nil)` inside the interface) is validated as the empty object: visitJSON's type
+  -- switch sends it to visitJSONObject (ValidateParameter never gets here: isNilValue; validateResponseHeader does)
+  | .obj _ req _, .nilObj => req.isEmpty
+  | .deep _ req, .nilObj => req.isEmpty
   | .obj _ req _, .dobj kvs => req.isEmpty && kvs.isEmpty   -- only the empty map crosses (never generated otherwise)
   | .deep _ req, .obj kvs => req.isEmpty && kvs.isEmpty
+  -- no type: only the enum speaks (nil is rejected: not nullable)
+  | .untyped _, .nil => false
+  | .untyped enum, .prim v => enum.isEmpty || enum.any (fun e => hit e v)
+  | .untyped enum, _ => enum.isEmpty
   | _, _ => false
 
 def countTrue : List Bool → Nat
@@ -1037,6 +1139,26 @@ def validateParameter (p : Param) (r : Req) : Verdict :=
 /-- the same decision over the specification's decoder and JSON equality for enums -/
 def validateSpec (p : Param) (r : Req) : Verdict :=
   decide' (visitSch enumHitSpec enumHitSpec) p (decodeStyled spec p.cell p.name p.required r p.schema)
+
+/-! ## validateResponseHeader: the same decoder behind another decision -/
+
+/-- validate_response.go validateResponseHeader for a header described by `schema` (Header.SerializationMethod: style
+simple unless given, explode false unless given): decodeValue over headerParamDecoder — no early exits —, then
+`found` → VisitJSON of the decoded value *whatever it is* (an empty header value decodes to nil and is validated as
+null; an empty value list gives a typed-nil map, validated as {}), not found → missing iff required. -/
+def validateRespHeader (fl : Flavour) (visit : Sch → Val → Bool) (name : Str) (st : Sty) (ex required : Bool) (r : Req) (s : Sch) : Verdict :=
+  let o := decodeValue fl ⟨.header, st, ex⟩ name required r s
+  match o.err with
+  | some e => errVerdict e
+  | none =>
+    if o.found then (if visit s o.val then .accept else .schema)
+    else if required then .missing else .accept
+
+def respHeaderImpl (name : Str) (st : Sty) (ex required : Bool) (r : Req) (s : Sch) : Verdict :=
+  validateRespHeader impl (visitSch enumHitImpl deepEqImpl) name st ex required r s
+
+def respHeaderSpec (name : Str) (st : Sty) (ex required : Bool) (r : Req) (s : Sch) : Verdict :=
+  validateRespHeader spec (visitSch enumHitSpec enumHitSpec) name st ex required r s
 
 /-! ## the specification's encoder (OpenAPI 3.0.3 §4.7.12.2 style table) -/
 
@@ -1126,7 +1248,7 @@ def defaultMethod : Loc → Sty × Bool
 /-! ## exclusion predicates (known-finding classes) -/
 
 /-- #31: cookie, form, explode=true with an array or object schema -/
-def leafIsPrim : Leaf → Bool | .prim _ => true | _ => false
+def leafIsPrim : Leaf → Bool | .prim _ => true | .untyped _ => true | _ => false
 def schLeaves : Sch → List Leaf
   | .leaf l => [l] | .allOf ls => ls | .anyOf ls => ls | .oneOf ls => ls
 
@@ -1138,20 +1260,46 @@ def psEnumInt32 (ps : PS) : Bool := !ps.enum.isEmpty && ps.t = .int32
 def psIsInt (ps : PS) : Bool := ps.t = .integer || ps.t = .int32
 
 def leafEnumGoType : Leaf → Bool
+  | .untyped _ => false
   | .prim ps => psEnumInt32 ps
   | .arr items _ _ enum => psEnumInt32 items || (!enum.isEmpty && psIsInt items)
   | .obj sprops _ addl => sprops.any (fun kv => psEnumInt32 kv.2) || (match addl with | some a => psEnumInt32 a | none => false)
   | .deep sprops _ => sprops.any (fun kv => match kv.2 with
     | .prim ps => psEnumInt32 ps | .arr it => psEnumInt32 it | .obj sub _ => sub.any (fun x => psEnumInt32 x.2))
 
-def EnumGoType (p : Param) : Bool := (schLeaves p.schema).any leafEnumGoType
-
-/-- a declared property whose schema differs from the additionalProperties schema: the code decodes it with the latter -/
-def leafAddlShadow : Leaf → Bool
-  | .obj sprops _ (some a) => sprops.any (fun kv => kv.2 ≠ a)
+/-- in a composition a value read by one alternative is validated against every alternative: an int32 (or an array of
+integers) produced by one leaf meets the enum of another -/
+def psHasEnum (ps : PS) : Bool := !ps.enum.isEmpty
+def leafHasInt32 : Leaf → Bool
+  | .untyped _ => false
+  | .prim ps => ps.t = .int32
+  | .arr items _ _ _ => items.t = .int32
+  | .obj sprops _ addl => sprops.any (fun kv => kv.2.t = .int32) || (match addl with | some a => a.t = .int32 | none => false)
+  | .deep sprops _ => sprops.any (fun kv => match kv.2 with
+    | .prim ps => ps.t = .int32 | .arr it => it.t = .int32 | .obj sub _ => sub.any (fun x => x.2.t = .int32))
+def leafHasEnum : Leaf → Bool
+  | .untyped enum => !enum.isEmpty
+  | .prim ps => psHasEnum ps
+  | .arr items _ _ _ => psHasEnum items
+  | .obj sprops _ addl => sprops.any (fun kv => psHasEnum kv.2) || (match addl with | some a => psHasEnum a | none => false)
+  | .deep sprops _ => sprops.any (fun kv => match kv.2 with
+    | .prim ps => psHasEnum ps | .arr it => psHasEnum it | .obj sub _ => sub.any (fun x => psHasEnum x.2))
+def leafArrInt : Leaf → Bool
+  | .arr items _ _ _ => psIsInt items
+  | _ => false
+def leafArrEnum : Leaf → Bool
+  | .arr _ _ _ enum => !enum.isEmpty
   | _ => false
 
-def AddlShadow (p : Param) : Bool := (schLeaves p.schema).any leafAddlShadow
+def isComposition : Sch → Bool
+  | .leaf _ => false
+  | _ => true
+
+def EnumGoType (p : Param) : Bool :=
+  (schLeaves p.schema).any leafEnumGoType ||
+  (isComposition p.schema &&
+    (((schLeaves p.schema).any leafHasInt32 && (schLeaves p.schema).any leafHasEnum) ||
+     ((schLeaves p.schema).any leafArrInt && (schLeaves p.schema).any leafArrEnum)))
 
 /-- query, form, explode=true, an object schema without additionalProperties schema, other query parameters
 present but none of the object's declared properties: the parameter is absent, the code decodes `{}` -/
@@ -1162,6 +1310,26 @@ def leafQueryObjAbsent (r : Req) : Leaf → Bool
 def QueryObjAbsent (p : Param) (r : Req) : Bool :=
   p.cell.loc = .query && p.cell.style = .form && p.cell.explode && !r.query.isEmpty &&
   (schLeaves p.schema).any (leafQueryObjAbsent r)
+
+/-- F-C05-6: a query parameter whose object schema declares no property but has an additionalProperties schema
+(a free-form map): the code's `found` is always false, so a supplied required parameter is reported missing -/
+def leafNoProps : Leaf → Bool
+  | .obj [] _ (some _) => true
+  | _ => false
+
+def QueryObjNoProps (p : Param) : Bool :=
+  p.cell.loc = .query && (schLeaves p.schema).any leafNoProps
+
+/-- F-C05-8: a schema without `type` (and without composition): the text of the parameter is never read -/
+def leafUntyped : Leaf → Bool
+  | .untyped _ => true
+  | _ => false
+
+def UntypedSchema (p : Param) : Bool := (schLeaves p.schema).any leafUntyped
+
+/-- F-C05-7: a deepObject parameter and a query key `name[…` with text outside its bracket groups -/
+def DeepKeyJunk (p : Param) (r : Req) : Bool :=
+  p.cell.loc = .query && p.cell.style = .deepObject && r.query.any (fun kv => !wellFormedKey p.name kv.1)
 
 /-! ## Encodable: the injectivity domain of the specification's encoding -/
 
